@@ -63,8 +63,9 @@ def changing(item):
 
 h = harvest()
 extra = V / "harness" / "corpus" / "extra_seeds.json"
+EXTRA = json.loads(extra.read_text()) if extra.exists() else {}
 if extra.exists():
-    for k, v in json.loads(extra.read_text()).items():
+    for k, v in EXTRA.items():
         h.setdefault(k, [])
         h[k] = [s for s in v if s not in h[k]] + h[k]
 res = impl.pool_map(changing, list(h.items()))
@@ -73,7 +74,8 @@ for r in res:
     assert r[0] == "ok", r
     cid, keep, rc = r[1]
     keep.sort(key=len)
-    seeds[cid] = keep[:14]
+    prio = [x for x in EXTRA.get(cid, []) if x in keep]          # the hand-written corner shapes are always kept
+    seeds[cid] = prio + [x for x in keep if x not in prio][: max(0, 14 - len(prio))]
     print(f"{cid}: {len(h[cid])} harvested, {len(keep)} changing, rc={rc}")
 (V / "harness" / "corpus" / "seeds.json").write_text(json.dumps(seeds, indent=0, sort_keys=True))
 print(len(seeds), "codemods,", sum(map(len, seeds.values())), "seeds")
